@@ -1,0 +1,87 @@
+//go:build verif
+
+// Contracts for package texttable, checked by /verif (govc). Comment-only.
+
+package texttable
+
+//@ -- ttab(t): the core table the renderer is wrapped around
+//@ spec ttab(t *TextTable) *tabular.ATable = t.Table.(*tabular.ATable)
+
+//@ globalinv propDimensions != nil && propLinesWidths != nil && propDimensions != propLinesWidths @C14
+//@ globalinv ErrNotCellProperties != nil @C14
+
+//@ -- the two private keys under which a render pass stores its measurements on a cell
+//@ spec kDims() Iface = mkiface(type[*propertyKey], box(propDimensions))
+//@ spec kLines() Iface = mkiface(type[*propertyKey], box(propLinesWidths))
+//@ spec propOf(c *tabular.Cell, k Iface) Iface = lookup(heap[tabular.valueProperty.chain], heap[tabular.valueProperty.key], heap[tabular.valueProperty.val], c.properties, k)
+
+//@ func CellPropertyExtractDimensions
+//@   tags C03,C04,C09
+//@   requires cell != nil && chainOK(heap[tabular.valueProperty.chain], heap[tabular.valueProperty.key], heap[tabular.valueProperty.val], cell.properties)
+//@   assigns nothing
+//@   ensures [stored-dimensions-or-zero] result.cellWidth == cellW(cell) && result.height == (dyn(propOf(cell, kDims())) == type[dimensions] ? propOf(cell, kDims()).(dimensions).height : 0) @C03
+
+//@ -- cellW(c): the width a render pass measured for the cell (0 when it has not been measured)
+//@ spec cellW(c *tabular.Cell) int = dyn(propOf(c, kDims())) == type[dimensions] ? propOf(c, kDims()).(dimensions).cellWidth : 0
+
+//@ func CellPropertyExtractLinesWidths
+//@   tags C03,C04,C09
+//@   requires cell != nil && chainOK(heap[tabular.valueProperty.chain], heap[tabular.valueProperty.key], heap[tabular.valueProperty.val], cell.properties)
+//@   assigns nothing
+//@   ensures [stored-lines-or-nil] dyn(propOf(cell, kLines())) == type[[]decoration.WidthString] ? result === propOf(cell, kLines()).([]decoration.WidthString) : len(result) == 0 @C04
+
+//@ -- linesOf(c): the per-line measurements a render pass stored on the cell
+//@ spec linesOf(c *tabular.Cell) []decoration.WidthString = propOf(c, kLines()).([]decoration.WidthString)
+
+//@ func (dimensionSetter).UpdateProperties
+//@   params ds, po
+//@   tags C04,C03,C14,C09
+//@   requires ownerOK(po) && (dyn(po) == type[*tabular.Cell] ==> !po.(*tabular.Cell).mustCalc)
+//@   requires [declared-height-is-a-length] dyn(po) == type[*tabular.Cell] ==> po.(*tabular.Cell).height <= 1099511627776
+//@   assigns loc(tabular.propertyImpl.properties, propsCell(po)), new(tabular.valueProperty), new(decoration.WidthString), new(string)
+//@   ensures [cells-only] (result == nil) <==> dyn(po) == type[*tabular.Cell]
+//@   ensures [chain-kept] ownerOK(po) && chainsStable(old(heap[tabular.valueProperty.chain]), old(heap[tabular.valueProperty.key]), old(heap[tabular.valueProperty.val]), heap[tabular.valueProperty.chain], heap[tabular.valueProperty.key], heap[tabular.valueProperty.val], old(alloc))
+//@   ensures [only-the-private-keys-change] dyn(po) == type[*tabular.Cell] ==> forall k Iface :: {propOf(po.(*tabular.Cell), k)} k != kDims() && k != kLines() ==> propOf(po.(*tabular.Cell), k) == old(propOf(po.(*tabular.Cell), k)) @C14
+//@   ensures [measured] dyn(po) == type[*tabular.Cell] ==> dyn(propOf(po.(*tabular.Cell), kDims())) == type[dimensions] && cellW(po.(*tabular.Cell)) == max(po.(*tabular.Cell).width, 0) && dyn(propOf(po.(*tabular.Cell), kLines())) == type[[]decoration.WidthString] @C03
+//@   ensures [declared-height-occupies-lines] dyn(po) == type[*tabular.Cell] ==> len(linesOf(po.(*tabular.Cell))) >= propOf(po.(*tabular.Cell), kDims()).(dimensions).height && len(linesOf(po.(*tabular.Cell))) >= nlines(po.(*tabular.Cell).str) @C04
+//@   ensures [lines-unmodified] dyn(po) == type[*tabular.Cell] ==> forall i int :: {linesOf(po.(*tabular.Cell))[i]} 0 <= i && i < nlines(po.(*tabular.Cell).str) ==> linesOf(po.(*tabular.Cell))[i].S == line(po.(*tabular.Cell).str, i) @C04
+//@   ensures [single-line-declared-width] dyn(po) == type[*tabular.Cell] && nlines(po.(*tabular.Cell).str) == 1 ==> linesOf(po.(*tabular.Cell))[0].W == max(po.(*tabular.Cell).width, 0) @C04
+//@   ensures [multi-line-measured] dyn(po) == type[*tabular.Cell] && nlines(po.(*tabular.Cell).str) != 1 ==> forall i int :: {linesOf(po.(*tabular.Cell))[i]} 0 <= i && i < nlines(po.(*tabular.Cell).str) ==> linesOf(po.(*tabular.Cell))[i].W == W(line(po.(*tabular.Cell).str, i)) @C04
+//@   ensures [padding-lines-blank] dyn(po) == type[*tabular.Cell] ==> forall i int :: {linesOf(po.(*tabular.Cell))[i]} nlines(po.(*tabular.Cell).str) <= i && i < len(linesOf(po.(*tabular.Cell))) ==> linesOf(po.(*tabular.Cell))[i].W == 0 && linesOf(po.(*tabular.Cell))[i].S == "" @C04
+//@   loop#1 invariant -1 <= rangeindex && rangeindex < len(lines) && len(linesWidths) == nLines && fresh(linesWidths) && nLines >= len(lines)
+//@   loop#1 invariant forall i int :: {linesWidths[i]} 0 <= i && i <= rangeindex ==> linesWidths[i].S == lines[i] && linesWidths[i].W == (len(lines) == 1 ? dims.cellWidth : W(lines[i]))
+//@   loop#1 invariant forall i int :: {linesWidths[i]} rangeindex < i && i < nLines ==> linesWidths[i].S == "" && linesWidths[i].W == 0
+//@   loop#1 decreases len(lines) - rangeindex
+
+//@ -- lwLen(c): number of line measurements stored on the cell (0 when it has not been measured)
+//@ spec lwLen(c *tabular.Cell) int = dyn(propOf(c, kLines())) == type[[]decoration.WidthString] ? len(linesOf(c)) : 0
+
+//@ -- cellsChains(cells): every cell's property chain is well-formed
+//@ pred cellsChains(cells []tabular.Cell) = forall i int :: {cells[i]} 0 <= i && i < len(cells) ==> chainOK(heap[tabular.valueProperty.chain], heap[tabular.valueProperty.key], heap[tabular.valueProperty.val], cells[i].properties)
+
+//@ func (*TextTable).RowToLinesOfWidthStrings
+//@   tags C04,C03,C09
+//@   requires 0 <= columnCount && columnCount <= 1048576 && cellsChains(cells)
+//@   assigns new(decoration.WidthString), new([]decoration.WidthString)
+//@   ensures [at-least-one-line] len(result) >= 1 && fresh(result) @C03
+//@   ensures [every-line-has-a-slot-per-column] forall l int :: {result[l]} 0 <= l && l < len(result) ==> len(result[l]) == columnCount && fresh(result[l]) @C04
+//@   ensures [tallest-cell-fits] forall c int :: {cells[c]} 0 <= c && c < len(cells) && c < columnCount ==> lwLen(&cells[c]) <= len(result) @C03
+//@   ensures [cell-line-in-its-slot] forall l int, c int :: {result[l][c]} 0 <= l && l < len(result) && 0 <= c && c < len(cells) && c < columnCount ==> (l < lwLen(&cells[c]) ? (result[l][c].S == linesOf(&cells[c])[l].S && result[l][c].W == linesOf(&cells[c])[l].W) : (result[l][c].S == "" && result[l][c].W == 0)) @C04
+//@   ensures [missing-cell-blank] forall l int, c int :: {result[l][c]} 0 <= l && l < len(result) && len(cells) <= c && c < columnCount ==> result[l][c].S == "" && result[l][c].W == 0 @C04
+//@   loop#1 invariant 0 <= i && i <= max && max == min(len(cells), columnCount) && len(columns) == max && fresh(columns) && lineCount >= 1 && lineCount <= 1099511627776
+//@   loop#1 invariant forall c int :: {columns[c]} 0 <= c && c < i ==> len(columns[c]) == lwLen(&cells[c]) && len(columns[c]) <= lineCount && (lwLen(&cells[c]) > 0 ==> columns[c] === linesOf(&cells[c]))
+//@   loop#1 decreases max - i
+//@   loop#2 invariant 0 <= l && l <= lineCount && len(lines) == lineCount && fresh(lines) && max == min(len(cells), columnCount) && len(columns) == max && lineCount >= 1 && lineCount <= 1099511627776
+//@   loop#2 invariant forall c int :: {columns[c]} 0 <= c && c < max ==> len(columns[c]) == lwLen(&cells[c]) && len(columns[c]) <= lineCount && (lwLen(&cells[c]) > 0 ==> columns[c] === linesOf(&cells[c]))
+//@   loop#2 invariant forall k int :: {lines[k]} 0 <= k && k < l ==> len(lines[k]) == columnCount && fresh(lines[k])
+//@   loop#2 invariant forall k int, c int :: {lines[k][c]} 0 <= k && k < l && 0 <= c && c < max ==> (k < lwLen(&cells[c]) ? (lines[k][c].S == linesOf(&cells[c])[k].S && lines[k][c].W == linesOf(&cells[c])[k].W) : (lines[k][c].S == "" && lines[k][c].W == 0))
+//@   loop#2 invariant forall k int, c int :: {lines[k][c]} 0 <= k && k < l && max <= c && c < columnCount ==> lines[k][c].S == "" && lines[k][c].W == 0
+//@   loop#2 decreases lineCount - l
+//@   loop#3 invariant 0 <= c && c <= max && 0 <= l && l < lineCount && len(lines) == lineCount && fresh(lines) && max == min(len(cells), columnCount) && len(columns) == max && lineCount >= 1 && lineCount <= 1099511627776 && len(lines[l]) == columnCount && fresh(lines[l])
+//@   loop#3 invariant forall c int :: {columns[c]} 0 <= c && c < max ==> len(columns[c]) == lwLen(&cells[c]) && len(columns[c]) <= lineCount && (lwLen(&cells[c]) > 0 ==> columns[c] === linesOf(&cells[c]))
+//@   loop#3 invariant forall k int :: {lines[k]} 0 <= k && k < l ==> len(lines[k]) == columnCount && fresh(lines[k]) && !(lines[k] === lines[l])
+//@   loop#3 invariant forall k int, j int :: {lines[k][j]} 0 <= k && k < l && 0 <= j && j < max ==> (k < lwLen(&cells[j]) ? (lines[k][j].S == linesOf(&cells[j])[k].S && lines[k][j].W == linesOf(&cells[j])[k].W) : (lines[k][j].S == "" && lines[k][j].W == 0))
+//@   loop#3 invariant forall k int, j int :: {lines[k][j]} 0 <= k && k < l && max <= j && j < columnCount ==> lines[k][j].S == "" && lines[k][j].W == 0
+//@   loop#3 invariant forall j int :: {lines[l][j]} 0 <= j && j < c ==> (l < lwLen(&cells[j]) ? (lines[l][j].S == linesOf(&cells[j])[l].S && lines[l][j].W == linesOf(&cells[j])[l].W) : (lines[l][j].S == "" && lines[l][j].W == 0))
+//@   loop#3 invariant forall j int :: {lines[l][j]} max <= j && j < columnCount ==> lines[l][j].S == "" && lines[l][j].W == 0
+//@   loop#3 decreases max - c
